@@ -86,7 +86,8 @@ def first_diff(a, b):
 def run_pat(scn, pattern):
     s = dict(scn)
     s["pattern"] = pattern
-    return record.run_solver(s, listener=False, cap=scn["iters"] + sum(p[1] for p in pattern if p[0] == "iter") + 8)
+    lims = [p[2] for p in pattern if p[0] == "set" and p[1] == "itersLimit"]
+    return record.run_solver(s, listener=False, cap=max([scn["iters"]] + lims) + sum(p[1] for p in pattern if p[0] == "iter") + 8)
 
 
 def run_case(c):
@@ -164,6 +165,16 @@ def run_case(c):
                     if len(viol) < 5:
                         viol.append({"mech": "batching-changes-sequence", "T": T, "composition": parts, "len": len(g), "first_diff": first_diff(b, g)})
             keys.append("r|%d|%s" % (c["i"], parts[:6]))
+        # Solve, raise the limit, Solve again == one Solve with the raised limit
+        if scn["iters"] > 6:
+            small = int(rng.integers(1, scn["iters"]))
+            s2 = dict(scn)
+            s2["iters"] = small
+            t2 = run_pat(s2, [["solve"], ["set", "itersLimit", scn["iters"]], ["solve"]])
+            if not t2.fp_exhausted:
+                obs["raised_limit_runs"] = obs.get("raised_limit_runs", 0) + 1
+                if not same_log(b, glog(t2)):
+                    viol.append({"mech": "raising-the-limit-changes-sequence", "T": T, "first_limit": small, "len": len(glog(t2)), "first_diff": first_diff(b, glog(t2))})
         obs["max_T_random"] = T
         return {"violations": viol, "obs": obs, "nontrivial": True, "keys": keys,
                 "sample": dict(scenario.short(scn), T=T, kind="random compositions") if c["i"] < 2 else None}
@@ -190,7 +201,7 @@ def EXHAUSTIVE(tier):
 
 
 def finalize(obs, tier, stats):
-    for k in ("compositions_all", "compositions_random", "overshoot", "zero_batches", "fresh_process_runs", "second_solves"):
+    for k in ("compositions_all", "compositions_random", "overshoot", "zero_batches", "fresh_process_runs", "second_solves", "raised_limit_runs"):
         if not obs.get(k):
             return "%s never exercised" % k, {}
     return None, {"exhaustive_part": "all compositions of every prefix for %d scenarios with T <= %d" % (obs.get("allcomp_scenarios", 0), obs.get("max_T_allcomp", 0))}
